@@ -100,8 +100,12 @@ impl<'t, F> TokenStream<'t, F> {
     pub fn lookahead(&mut self, n: usize) -> (r: std::result::Result<Token<'t>, LexerError>)
         ensures r is Ok ==> r->Ok_0.token_type < final(self).type_bound(), final(self).type_bound() == old(self).type_bound()
     { unimplemented!() }
+    /// ghost flag: the skipped tokens in front of the next significant token have just been handed out (set by
+    /// handle_additional_tokens, not preserved by any other stream operation)
+    pub uninterp spec fn skips_handed_out(&self) -> bool;
     #[verifier::external_body]
     pub fn consume(&mut self) -> (r: std::result::Result<Token<'t>, LexerError>)
+        requires old(self).skips_handed_out(), //# a token is only consumed right after the skipped tokens in front of it were handed out (to the parse tree and to on_comment)
         ensures final(self).type_bound() == old(self).type_bound()
     { unimplemented!() }
     #[verifier::external_body]
